@@ -564,6 +564,9 @@ pub fn edge_values() -> Vec<serde_json::Value> {
         json!("a"),
         json!("1"),
         json!("x"),
+        // strings whose code points and UTF-16 code units differ (spread, index, length)
+        json!("x\u{1f600}y"),
+        json!("\u{1f600}"),
         json!({"$nan": 1}),
         json!(null),
         json!({"$u": 1}),
